@@ -30,12 +30,14 @@ type SpecEnv struct {
 	e     *Exec
 	cur   *State
 	old   *State
+	head  *State // loop step clauses: the state at the start of the pass through the body (at_head)
 	locals *State // where local variables are read (old() switches the heap only, as in Dafny)
 	inOldCtx bool // inside old(): a parameter name denotes its value at function entry
 	vars  map[string]TV
 	params map[string]TV // consulted after locals (loop invariants see the current value of a reassigned parameter)
 	pkg   *types.Package
 	fn    *ssa.Function // for locals by name (loop invariants); nil otherwise
+	calleeFn *ssa.Function // foreign clauses: the callee whose contract is being applied (result types for lastresult)
 	loop  *loopCtx
 	bound map[string]bool // SMT symbols of enclosing quantifier variables
 	binders []string      // "(sym sort)" of enclosing quantifier variables
@@ -712,6 +714,16 @@ func (env *SpecEnv) call(n SCall) TV {
 	switch n.Fun {
 	case "old":
 		return env.inOld().eval(n.Args[0])
+	case "at_head":
+		// at_head(e): e - heap AND locals - as it was when the pass through the loop body under execution started
+		// (only inside `loop k: step` clauses)
+		if env.head == nil {
+			env.fail("at_head(...) outside a loop step clause")
+		}
+		ne := *env
+		ne.cur = env.head
+		ne.locals = env.head
+		return ne.eval(n.Args[0])
 	case "loopentry":
 		// loopentry(k, e): heap reads of e in the state in which loop k was entered
 		k, ok := n.Args[0].(SInt)
@@ -820,27 +832,148 @@ func (env *SpecEnv) call(n SCall) TV {
 		return TV{arg(0).V, types.Universe.Lookup(n.Fun).Type()}
 	case "sameRef":
 		return TV{S("(= %s %s)", env.refOf(arg(0)), env.refOf(arg(1))), boolT}
-	case "ncalls":
-		// ncalls("substr"): how many calls to callees whose name contains substr happened so far on this path
+	case "ncalls", "icalls", "callseq", "lastresult":
+		// The call log of the function under verification (its own call sites, in path order).
+		//   ncalls("substr")     how many calls to callees whose name contains substr happened so far
+		//   icalls("substr")     ... since the iteration under execution of the innermost enclosing loop started
+		//   callseq("substr")    position in the log of the latest such call (-1: none)
+		//   lastresult("substr") the value the latest such call returned (first component of a tuple)
+		// A loop is cut at its invariant: the iterations that are not on this path made an UNKNOWN number of calls to the
+		// callees named in the loop body, so whenever such calls may be missing from the window the answer is an unknown
+		// value (count: the logged number plus an arbitrary non-negative number).
 		lit, ok := n.Args[0].(SStr)
 		if !ok {
-			env.fail("ncalls: argument must be a string literal")
+			env.fail("%s: argument must be a string literal", n.Fun)
 		}
-		if env.foreign {
-			// inside an applied callee contract the call log is the CALLEE's, which the caller does not know:
-			// an arbitrary number (the clause constrains nothing here)
+		unknownInt := func(base int, nonneg bool) TV {
 			e.fresh++
-			nm := fmt.Sprintf("|ncalls!%d|", e.fresh)
+			nm := fmt.Sprintf("|%s!%d|", n.Fun, e.fresh)
 			e.decl(fmt.Sprintf("(declare-const %s Int)", nm))
+			if nonneg {
+				return TV{S("(+ %d (ite (>= %s 0) %s 0))", base, nm, nm), intT}
+			}
 			return TV{S("%s", nm), intT}
 		}
-		cnt := 0
-		for _, c := range env.cur.calls {
-			if strings.Contains(c, lit.V) {
-				cnt++
+		if env.foreign {
+			// inside an applied callee contract the call log is the CALLEE's, which the caller does not know
+			if n.Fun == "lastresult" {
+				// an unknown value of the result type (from the call sites of the CALLEE, whose contract this is)
+				var rt types.Type
+				if env.calleeFn != nil {
+					for _, b := range env.calleeFn.Blocks {
+						for _, ins := range b.Instrs {
+							if ci, ok := ins.(ssa.CallInstruction); ok && rt == nil && strings.Contains(callLogName(ci.Common()), lit.V) {
+								rt = resultType(ci.Common().Signature())
+							}
+						}
+					}
+				}
+				comp := 0
+				if len(n.Args) > 1 {
+					if ki, ok := n.Args[1].(SInt); ok {
+						fmt.Sscanf(ki.V, "%d", &comp)
+					}
+				}
+				if tp, ok := rt.(*types.Tuple); ok && comp < tp.Len() {
+					rt = tp.At(comp).Type()
+				}
+				if rt == nil {
+					env.fail("lastresult(%q) inside a callee contract applied at a call site: result type unknown", lit.V)
+				}
+				return TV{e.symbolic(env.cur, rt, "lastresult"), rt}
+			}
+			return unknownInt(0, false)
+		}
+		st := env.cur
+		from := 0
+		enclosing := map[*ssa.BasicBlock]bool{}
+		if n.Fun == "icalls" && e.curBlock != nil {
+			for h, m := range st.iterMark {
+				if e.inLoopBlocks(h, e.curBlock) {
+					enclosing[h] = true
+					if m > from {
+						from = m
+					}
+				}
 			}
 		}
-		return TV{S("%d", cnt), intT}
+		cnt, last := 0, -1
+		for i := from; i < len(st.calls); i++ {
+			if strings.Contains(st.calls[i], lit.V) {
+				cnt++
+				last = i
+			}
+		}
+		hidden, hiddenAfterLast := false, false
+		for _, cl := range st.cutLoops {
+			if cl.Pos < from || enclosing[cl.Head] {
+				continue
+			}
+			for _, nm := range cl.Names {
+				if strings.Contains(nm, lit.V) {
+					hidden = true
+					if cl.Pos > last {
+						hiddenAfterLast = true
+					}
+				}
+			}
+		}
+		switch n.Fun {
+		case "ncalls", "icalls":
+			if hidden {
+				return unknownInt(cnt, true)
+			}
+			return TV{S("%d", cnt), intT}
+		case "callseq":
+			if hiddenAfterLast {
+				return unknownInt(0, false)
+			}
+			return TV{S("%d", last), intT}
+		}
+		// lastresult("f") / lastresult("f", k): the (k-th component of the) value the latest such call returned
+		comp := 0
+		if len(n.Args) > 1 {
+			ki, ok := n.Args[1].(SInt)
+			if !ok {
+				env.fail("lastresult(f, k): k must be an integer literal")
+			}
+			fmt.Sscanf(ki.V, "%d", &comp)
+		}
+		if last >= 0 && !hiddenAfterLast && st.callRes[last].V != nil {
+			v, rt := st.callRes[last].V, st.callRes[last].T
+			if tp, ok := v.(Tuple); ok {
+				if comp >= len(tp.E) {
+					env.fail("lastresult(%q, %d): the callee has %d results", lit.V, comp, len(tp.E))
+				}
+				v = tp.E[comp]
+				rt = rt.(*types.Tuple).At(comp).Type()
+			} else if comp != 0 {
+				env.fail("lastresult(%q, %d): the callee has one result", lit.V, comp)
+			}
+			return TV{v, rt}
+		}
+		// no such call on this path, or the latest one may lie in an iteration that is not on it: an unknown value of the
+		// callee's result type (taken from the call sites of the function under verification)
+		var rt types.Type
+		if e.fn != nil {
+			for _, b := range e.fn.Blocks {
+				for _, ins := range b.Instrs {
+					if ci, ok := ins.(ssa.CallInstruction); ok && rt == nil && strings.Contains(callLogName(ci.Common()), lit.V) {
+						rt = resultType(ci.Common().Signature())
+					}
+				}
+			}
+		}
+		if rt == nil {
+			panic(noSuchCall{fmt.Sprintf("lastresult(%q): the function under verification has no such call", lit.V)})
+		}
+		if tp, ok := rt.(*types.Tuple); ok {
+			if comp >= tp.Len() {
+				env.fail("lastresult(%q, %d): the callee has %d results", lit.V, comp, tp.Len())
+			}
+			rt = tp.At(comp).Type()
+		}
+		return TV{e.symbolic(st, rt, "lastresult"), rt}
 	case "unchanged":
 		a := env.eval(n.Args[0])
 		b := env.inOld().eval(n.Args[0])
